@@ -188,28 +188,6 @@ theorem lazy_nonlocal_counterexample :
 
 variable {A : Type}
 
-mutual
-theorem decode_cut_prune_aux (v : Dec D A) : ∀ (t : Tree) (k : Nat) (d : D),
-    decodeCut v k d t = prune k (decode v d t)
-  | .node i tg ds cs, k, d => by
-    simp only [decodeCut, decode, prune]
-    rw [decode_cut_prune_auxK v cs k d _ 0]
-theorem decode_cut_prune_auxK (v : Dec D A) : ∀ (cs : List Tree) (k : Nat) (d : D) (parent : Tree) (j : Nat),
-    decodeCutKids v k d parent j cs = pruneKids k (decodeKids v d parent j cs)
-  | [], k, d, parent, j => by simp [decodeCutKids, decodeKids, pruneKids]
-  | c :: cs, k, d, parent, j => by
-    simp only [decodeCutKids, decodeKids]
-    rw [decode_cut_prune_auxK v cs k d parent (j + 1)]
-    cases hg : v.gov d parent j with
-    | none => simp
-    | some d' =>
-      simp only [List.singleton_append, pruneKids]
-      by_cases h1 : 1 < k
-      · simp only [h1, if_true]
-        rw [decode_cut_prune_aux v c (k - 1) d']
-      · simp [h1]
-end
-
 /-- "limiting the depth changes nothing above the cut" (data): decoding with `max_depth = k` yields the
     full decoded value with everything below level `k` replaced by the filler. -/
 theorem decode_cut_prune (v : Dec D A) (t : Tree) (k : Nat) (d : D) :
